@@ -65,6 +65,14 @@ def make_tensor(call: dict[str, Any], cid: int, rank: int) -> torch.Tensor:
         # values float32 cannot represent (odd integers above 2**24): a
         # detour through a narrower dtype anywhere on the path shows
         t = t + float(2 ** 33 + 1) * (rank + 1) + float(2 ** 25)
+    if call.get('huge') and call['kind'] == 'broadcast' and t.numel():
+        # finite values in the top half of the dtype's range (2x overflows):
+        # a broadcast moves them unchanged, any arithmetic on the way may not
+        top = {'float16': 1.5 * 2.0 ** 15, 'bfloat16': 1.5 * 2.0 ** 127,
+               'float32': 1.5 * 2.0 ** 127, 'float64': 1.5 * 2.0 ** 1023}[
+            call['dtype']]
+        k = (t.to(torch.float64) % 3).to(torch.float64)
+        t = (top * (1.0 - 0.25 * k)).to(dt).reshape(shape)
     if call.get('noncontig') and t.dim() == 2:
         # same values, non-contiguous memory
         t = t.t().contiguous().t()
@@ -358,7 +366,11 @@ def check(plan: dict[str, Any], res: dict[str, Any], mode: str,
             # group saw bucketed traffic exclusively)
             items = want_seq.get(members, [])
             if items and all(x[2] for x in items):
-                sizes = seqs.get(members, [])
+                # (tensors without elements add nothing to a fused buffer
+                # and may sit on either side of a cut: left out of the
+                # partition matching)
+                items = [x for x in items if x[0] > 0]
+                sizes = [z for z in seqs.get(members, []) if z > 0]
                 i = 0
                 ok = True
                 for fused in sizes:
@@ -459,6 +471,10 @@ def gen_comm_plan(rng: random.Random, *, tier: str, symmetric_only: bool,
                 [rng.randint(1, 9), rng.randint(1, 9)],
                 [rng.randint(1, 4), rng.randint(1, 4), rng.randint(1, 4)],
             ])
+            if rng.random() < 0.1:
+                # a tensor without elements is still a tensor with a dtype
+                shape = rng.choice([[0], [0, rng.randint(1, 4)],
+                                    [rng.randint(1, 3), 0]])
         dt = dtype
         if mixed_dtypes and rng.random() < 0.4:
             dt = rng.choice(['float32', 'float64'])
@@ -470,6 +486,7 @@ def gen_comm_plan(rng: random.Random, *, tier: str, symmetric_only: bool,
             'average': rng.random() < 0.5,
             'src_pos': rng.randint(0, 7),
             'noncontig': rng.random() < 0.3,
+            'huge': kind == 'broadcast' and rng.random() < 0.3,
         }
         if focus is not None and rng.random() < 0.85:
             call.update(focus, kind='allreduce_bucketed', dtype=dtype,
